@@ -31,6 +31,7 @@ type Obligation struct {
 	Text   string
 	Expect string // "unsat" (default): goal must be proved
 	exec   *Exec
+	Concrete *string // set for obligations decided by concrete exhaustive evaluation: "" = holds, otherwise the failing case
 }
 
 type Exec struct {
